@@ -114,6 +114,11 @@ func typeOf(p any) string {
 }
 
 func c20ChainMonitor(c *Ctx, op, out string) {
+	if strings.HasPrefix(out, "panic") {
+		c.Violate("C20/chain/panic", "terway-cli panics on this CNI configuration ("+out+")", op)
+		c.Violate("C15/cni-config/panic", "terway-cli panics on this CNI configuration ("+out+"): a malformed value must be ignored or reported as an error", op)
+		return
+	}
 	f := strings.Fields(op)
 	ebpf := f[1] == "1"
 	in, _, _ := tokParse(f[7:])
@@ -294,6 +299,36 @@ func genConfig(r *Rng, overlay bool) map[string]any {
 	put(30, "enable_eni_trunking", func() any { return r.Bool() })
 	put(20, "kube_client_qps", func() any { return r.Intn(50) })
 	return m
+}
+
+// c15ChainRun: CNI configuration lists whose terway entry carries values of every JSON kind in the fields terway-cli
+// reads, through both steps of `terway-cli cni` (mergeConfigList, then storeRuntimeConfig) - C15's "CNI configuration" clause.
+func c15ChainRun(c *Ctx, n int) {
+	r := c.R
+	kinds := []any{nil, true, false, 0, 7, 1.5, "", "ebpf", "iptables", "veth", "IPVlan", "datapathv2", "bogus", []any{"ebpf"}, map[string]any{"a": 1}}
+	var ops []string
+	for i := 0; i < n; i++ {
+		p := map[string]any{"type": "terway"}
+		for _, k := range []string{"network_policy_provider", "eniip_virtual_type", "bandwidth_mode", "capabilities", "cniVersion", "name"} {
+			if r.Chance(45) {
+				p[k] = Pick(r, kinds)
+			}
+		}
+		if r.Chance(8) {
+			p["type"] = Pick(r, kinds)
+		}
+		plugins := []any{p}
+		if r.Chance(30) {
+			plugins = append(plugins, map[string]any{"type": Pick(r, []any{"portmap", "tuning", 3, nil})})
+		}
+		ops = append(ops, fmt.Sprintf("cni.chain %s %s %s %s %s %s %s", b01(r.Chance(75)), b01(r.Chance(50)), b01(r.Chance(50)), b01(r.Chance(40)),
+			Pick(r, []string{"-", "-", "t", "f"}), b01(r.Chance(25)), tokShow(plugins)))
+	}
+	outs := c20Exec(c, ops)
+	for i, op := range ops {
+		c.One(op, outs[i], strings.HasPrefix(outs[i], "[ {"))
+		c.Count("cni-config")
+	}
 }
 
 func c20Run(c *Ctx) {
